@@ -149,7 +149,7 @@ fn replay(kind: &str, iface: &str, msg_i: usize, plen: usize, sc: Scripts, max_r
     let eof_goal = 3; // keep reading after end-of-stream: it must stay at 0
     let mut reads = 0usize;
     let mut buf = vec![0u8; maxb];
-    let mut check = |d: &mut usize, n: usize, buf: &[u8]| -> bool {
+    let check = |d: &mut usize, n: usize, buf: &[u8]| -> bool {
         let ok = *d + n <= expect.len() && buf[..n] == expect[*d..*d + n];
         *d += n;
         ok
@@ -157,7 +157,31 @@ fn replay(kind: &str, iface: &str, msg_i: usize, plen: usize, sc: Scripts, max_r
     if iface == "sync" {
         let mut rd = req.into_read();
         let mut i = 0usize;
+        // in a third of the runs the consumer switches to read_to_end after its first few reads (which may have stopped
+        // anywhere inside header+attributes or the payload)
+        let fin_after = if (bufs.iter().sum::<usize>() + hlen + plen) % 3 == 0 { Some(bufs.len().min(1 + (hlen + plen) % 4)) } else { None };
         while eofs < eof_goal && reads < max_reads {
+            if fin_after == Some(i) {
+                i += 1;
+                reads += 1;
+                push(json!({"ev": "ccall", "want": 1usize << 30}));
+                let mut v = vec![];
+                match rd.read_to_end(&mut v) {
+                    Ok(n) => {
+                        let ok = n == v.len() && d + n <= expect.len() && v[..] == expect[d..d + n];
+                        d += n;
+                        if n == 0 {
+                            eofs += 1;
+                        }
+                        push(json!({"ev": "cret", "r": "got", "n": n, "ok": ok, "via": "read_to_end"}));
+                    }
+                    Err(e) => {
+                        push(json!({"ev": "cret", "r": "err", "kind": kind_name(e.kind())}));
+                        break;
+                    }
+                }
+                continue;
+            }
             let mut b = bufs[i % bufs.len()];
             if i >= bufs.len() && b == 0 {
                 b = 1;
